@@ -174,6 +174,36 @@ func c02Repeat(useShipped bool) func(t *rapid.T) {
 				}
 			}
 		}
+		// the older entry points, which merge and sort candidate lists of their own
+		for name, call := range map[string]func(d *database.Database, o database.SearchOptions) []database.SearchResult{
+			"SearchWithFuzzy": func(d *database.Database, o database.SearchOptions) []database.SearchResult {
+				return d.SearchWithFuzzy(q, o)
+			},
+			"SearchWithNLP": func(d *database.Database, o database.SearchOptions) []database.SearchResult {
+				return d.SearchWithNLP(q, o)
+			},
+			"SearchWithOptions": func(d *database.Database, o database.SearchOptions) []database.SearchResult {
+				return d.SearchWithOptions(q, o)
+			},
+			"SearchWithPipelineOptions": func(d *database.Database, o database.SearchOptions) []database.SearchResult {
+				return d.SearchWithPipelineOptions(q, o)
+			},
+		} {
+			if useShipped && name != "SearchWithPipelineOptions" {
+				continue // linear scans of 6,619 entries: kept to the generated databases
+			}
+			a := rank(db, call(db, opt))
+			for rep := 0; rep < 2; rep++ {
+				if b := rank(db, call(db, opt)); !rankEq(a, b) {
+					t.Fatalf("%s: repetition differs for query %q options %v\n first: %s\n again: %s\n db=%v", name, q, optBrief(opt), rankStr(a), rankStr(b), gen.BriefDB(cmds, 12))
+				}
+			}
+			if db2 != nil {
+				if b := rank(db2, call(db2, opt2)); !rankEq(a, b) {
+					t.Fatalf("%s: independently loaded copy differs for query %q options %v\n first: %s\n other: %s\n db=%v", name, q, optBrief(opt), rankStr(a), rankStr(b), gen.BriefDB(cmds, 12))
+				}
+			}
+		}
 		ns := rapid.SampledFrom([]int{0, 1, 3, 5}).Draw(t, "nsug")
 		s1 := db.GetSuggestions(q, ns)
 		for rep := 0; rep < reps/2; rep++ {
